@@ -1233,19 +1233,27 @@ int safec_vsnprintf_s(out_fct_type out, const char *funcname, char *buffer,
 #endif // PRINTF_SUPPORT_FLOAT
         case 'c': {
             unsigned int l = 1U;
-            char wstr[5];
+            unsigned int wlen = 0U;
+            char wstr[MB_LEN_MAX];
             if (flags & FLAGS_LONG) {
 #ifndef SAFECLIB_DISABLE_WCHAR
-                int len = wctomb(wstr, va_arg(va, int));
-                if (len <= 0 || len > 4) {
+                const int saved_errno = errno;
+                mbstate_t st;
+                size_t len;
+                memset(&st, 0, sizeof st);
+                len = wcrtomb(wstr, (wchar_t)va_arg(va, wint_t), &st);
+                if (len == (size_t)-1) {
                     char msg[80];
                     snprintf(msg, sizeof msg, "%s: wctomb for %%lc arg failed",
                              funcname);
-                    invoke_safe_str_constraint_handler(msg, buffer,
-                                                       RCNEGATE(-len));
-                    return len;
+                    errno = saved_errno; /* reported here */
+                    invoke_safe_str_constraint_handler(msg, buffer, 1);
+                    return -1;
                 }
-                wstr[len] = '\0';
+                if (wstr[0] != '\0') { /* a null wide character prints nothing */
+                    l = (unsigned int)len;
+                    wlen = l;
+                }
 #else
                 char msg[80];
                 snprintf(msg, sizeof msg, "%s: unsupported %%lc arg", funcname);
@@ -1264,7 +1272,7 @@ int safec_vsnprintf_s(out_fct_type out, const char *funcname, char *buffer,
             // char output
             if (flags & FLAGS_LONG) {
                 char *p = &wstr[0];
-                while (*p != 0) {
+                while (wlen--) {
                     rc = out(*(p++), buffer, idx++, bufsize);
                     if (unlikely(rc < 0))
                         return rc;
